@@ -249,6 +249,29 @@ PRESERVING = [
         "                    raise _r\n"
         "                dfs_features[_i] = _r\n\n    elif axis is None:")],
      'callbacks feed a queue.Queue with (index, result); placed by index'),
+    ('p_event_callbacks', [(G, "            dfs_features = list(progress_bar(mapping, progress, len(sigs)))\n\n    elif axis is None:",
+        "            _kw = kwargs if len(kwargs) > 1 else kwargs * len(sigs)\n"
+        "            _f = partial(compute_features, fs=fs, f_range=f_range, return_samples=return_samples)\n"
+        "            import threading as _th\n"
+        "            _done, _lock, _state = _th.Event(), _th.Lock(), {'left': len(sigs), 'err': None}\n"
+        "            dfs_features = [None] * len(sigs)\n"
+        "            def _store(_i, _r, _is_err=False):\n"
+        "                with _lock:\n"
+        "                    if _is_err:\n"
+        "                        _state['err'] = _state['err'] or _r\n"
+        "                    else:\n"
+        "                        dfs_features[_i] = _r\n"
+        "                    _state['left'] -= 1\n"
+        "                    if _state['left'] == 0:\n"
+        "                        _done.set()\n"
+        "            for _i, (s, k) in enumerate(zip(sigs, _kw)):\n"
+        "                pool.apply_async(_f, (s,), k, callback=lambda r, _i=_i: _store(_i, r),\n"
+        "                                 error_callback=lambda e, _i=_i: _store(_i, e, True))\n"
+        "            if len(sigs):\n"
+        "                _done.wait()\n"
+        "            if _state['err'] is not None:\n"
+        "                raise _state['err']\n\n    elif axis is None:")],
+     'callbacks store by index and set a threading.Event when everything is in'),
     ('p_private_keys', [(O, "        self.df_features = compute_features(\n            self.sig,",
                          "        self.__dict__['_n_fits'] = self.__dict__.get('_n_fits', 0) + 1\n        self.df_features = compute_features(\n            self.sig,")],
      'object keeps a private fit counter'),
